@@ -779,6 +779,7 @@ EXPLANATION = (
     "span_err (reviewed: utility types without type arguments). R16.4: the registries are filled by a read-only pre-pass that dominates the traversal and "
     "are handed to the visitor before it. R16.5: requiredness table of the props builder. R16.6: every declaration hook registers on every "
     "path. R16.7: identifier keys and quoted keys select alike. R16.8: the member accumulator is append-only."
+    ' R16.12: no first-wins / truncating combinator (find_map, find, first, next, nth, take, ...) is applied to the `types` list of a union or intersection; every constituent contributes (positive control in the thorough tier).'
     ' R16.10: the member resolver has no silent way out — every path through it calls a local resolver, appends members or reports an error; the only accepted paths without an action are utility types written without their type arguments.'
 )
 ASSUMPTIONS = ["set equality of props for every type encoding is not computed; only agreement of sibling implementations and the tables are decided",
